@@ -1,9 +1,9 @@
 """Engine extension used by C10.
 
-1. `Rec('module:Class#view')` -- *immutable record values*: an instance of a modelled class seen as the tuple of its
-   data fields (a z3 tuple; element kind ('rec', model name)).  PyVC's symbolic sequences hold scalars / tuples
+1. `RecVal('module:Class#view')` -- *immutable record values*: an instance of a modelled class seen as the tuple of its
+   data fields (a z3 tuple; element kind ('rval', model name)).  PyVC's symbolic sequences hold scalars / tuples
    only; the GATT server walks `self.attributes`, a list of Attribute objects of any length, appends some of them
-   to a local list and walks that list again.  With `ListOf(Rec(..))` such lists are ordinary symbolic sequences:
+   to a local list and walks that list again.  With `ListOf(RecVal(..))` such lists are ordinary symbolic sequences:
    iteration, subscripts, `append`, comprehensions, loop havoc and frame conditions are the engine's existing
    sequence machinery; only attribute access on an element is new (projection of the tuple).
    What the abstraction gives up, and why it is sound for the code it is used on:
@@ -36,26 +36,26 @@ from .values import Bound, Builtin, IntSeq, Sym, Unknown, sort_of
 # ---------------------------------------------------------------------------
 # 1. records
 # ---------------------------------------------------------------------------
-class Rec(C.ExtT):
+class RecVal(C.ExtT):
     def __init__(self, name):
         self.name = name
 
     def __repr__(self):
-        return f'Rec({self.name})'
+        return f'RecVal({self.name})'
 
     def kind(self):
-        return ('rec', self.name)
+        return ('rval', self.name)
 
     def fresh(self, cfg, path, hint):
         return path.fresh_sym(self.kind(), hint)
 
 
 def _is_data(ft):
-    return ft in (C.Int, C.Bool, C.Bytes) or isinstance(ft, (C.IntRange, C.Opaque, Rec))
+    return ft in (C.Int, C.Bool, C.Bytes) or isinstance(ft, (C.IntRange, C.Opaque, RecVal))
 
 
 def _kind_of_field(ft):
-    if isinstance(ft, Rec):
+    if isinstance(ft, RecVal):
         return ft.kind()
     from .vcgen import kind_of_T
 
@@ -63,7 +63,7 @@ def _kind_of_field(ft):
 
 
 class RecKind:
-    """handler of the element kind ('rec', model name) -- see values.EXT_KINDS"""
+    """handler of the element kind ('rval', model name) -- see values.EXT_KINDS"""
 
     def __init__(self):
         self._sorts = {}
@@ -206,7 +206,7 @@ class RecKind:
 
 
 REC_FROM_NATIVE = {}
-values.EXT_KINDS['rec'] = RecKind()
+values.EXT_KINDS['rval'] = RecKind()
 
 
 # ---------------------------------------------------------------------------
